@@ -28,11 +28,12 @@ def denseOf (ps : List Nat) : List Bool :=
 def parseEntry (s : String) : Option CommitGraphFmt.Entry :=
   match s.splitOn ":" with
   | [c, t, g, tm, ps] => do
-    some { cid := ← bytes? c, tree := ← bytes? t, gen := ← nat? g, time := ← nat? tm, parents := ← csvBytes? ps }
+    some { cid := ← bytes? c, tree := ← bytes? t, gen := ← nat? g, time := ← nat? tm,
+           parents := ← (if ps = "?" then some none else (csvBytes? ps).map some) }
   | _ => none
 
 def showEntry (e : CommitGraphFmt.Entry) : String :=
-  s!"{hex e.cid}:{hex e.tree}:{e.gen}:{e.time}:{showCsvBytes e.parents}"
+  s!"{hex e.cid}:{hex e.tree}:{e.gen}:{e.time}:{match e.parents with | none => "?" | some ps => showCsvBytes ps}"
 
 def parseMap (s : String) : Option (List (String × String)) :=
   if s = "-" then some [] else
@@ -72,23 +73,18 @@ def handle (op : String) (args : List String) : Option String :=
               | none => " none" | some ps => " " ++ showCsvBytes ps))
           | .error e => s!"err {e}")
       | _, _ => "bad-arg"
-  | "c14.cg.encall", oids :: pss => some <| match csvBytes? oids, pss.mapM csvBytes? with
-      | some oids, some pss => (match CommitGraphFmt.encodeAll oids pss 0 with
-          | .ok (slots, edges) =>
-            "ok " ++ showCsvNat (slots.flatMap (fun s => [s.1, s.2])) ++ " " ++ showCsvNat edges
-          | .error e => s!"err {e}")
+  | "c14.cg.encall", oids :: pss => some <|
+      match csvBytes? oids, pss.mapM (fun x => if x = "?" then some none else (csvBytes? x).map some) with
+      | some oids, some pss =>
+        let r := CommitGraphFmt.encodeAll oids pss 0
+        "ok " ++ showCsvNat (r.1.flatMap (fun s => [s.1, s.2])) ++ " " ++ showCsvNat r.2
       | _, _ => "bad-arg"
-  | "c14.cg.close", es => some <|
-      match es.mapM (fun e => match e.splitOn ":" with
-        | [c, ps] => do some ((← bytes? c), (← csvBytes? ps))
-        | _ => none) with
-      | some es => showCsvBytes ((CommitGraphFmt.closeEntries es.length es).map (·.1))
-      | none => "bad-arg"
   | "c14.cg.decpar", [oids, edges, p1, p2] => some <|
       match csvBytes? oids, (if edges = "none" then some none else (csvNat? edges).map some), nat? p1, nat? p2 with
       | some oids, some edges, some p1, some p2 =>
         (match CommitGraphFmt.decodeParents oids edges p1 p2 with
-          | .ok ps => s!"ok {showCsvBytes ps}" | .error e => s!"err {e}")
+          | .ok none => "ok ?"
+          | .ok (some ps) => s!"ok {showCsvBytes ps}" | .error e => s!"err {e}")
       | _, _, _, _ => "bad-arg"
   | "c14.midx.lookups", [fan, oids, shas] => some <| match csvNat? fan, csvBytes? oids, csvBytes? shas with
       | some fan, some oids, some shas =>
